@@ -18,6 +18,7 @@ func zzH_C35_excess_blob() {
 	zzAssume(target < max)
 	zzAssume(max <= 1<<16)
 	bcfg := BlobConfig{Target: target, Max: max, UpdateFraction: zzNondetU64()}
+	zzAssume(bcfg.UpdateFraction >= 1) // chain-config validity: the update fraction is a divisor
 	excess, used := zzNondetU64(), zzNondetU64()
 	zzAssume(excess <= 1<<40)
 	zzAssume(used <= uint64(max)*params.BlobTxBlobGasPerBlob) // header validation
